@@ -238,6 +238,40 @@ def global_rules_body(body):
     return b
 
 
+def loop_rules(body, sig):
+    """R10: `let X: Vec<T> = RECV.iter().map(|p| E).collect();`  ->  `let mut X: Vec<T> = Vec::new(); for p in it_X: RECV.iter() { X.push(E); }`
+       R11: `for p in S {` where S is a parameter declared `S: &[T]`  ->  `for p in it_p: S.iter() {`
+       Both are the standard desugarings of std iterators over slices (assumed: slice::Iter/Map/collect visit every element once, in order)."""
+    b = body
+    while True:
+        m = re.search(r"let\s+(\w+)\s*:\s*(Vec<[^=;]*>)\s*=\s*([\w.]+?)\s*\.iter\(\)\s*\.map\(\s*\|(\w+)\|", b)
+        if not m:
+            break
+        j, d = m.end(), 1
+        # closure body runs to the `)` closing `.map(`
+        k = j
+        while k < len(b) and d:
+            if b[k] in "([{": d += 1
+            elif b[k] in ")]}": d -= 1
+            k += 1
+        expr = b[j:k - 1].strip().rstrip(",").strip()
+        tail = re.match(r"\s*\.collect\(\)\s*;", b[k:])
+        if not tail:
+            break
+        name, ty, recv, pv = m.group(1), m.group(2), m.group(3), m.group(4)
+        new = f"let mut {name}: {ty} = Vec::new();\n        for {pv} in it_{name}: {recv}.iter() {{\n            {name}.push({expr});\n        }}"
+        b = b[:m.start()] + new + b[k + tail.end():]
+        hit("R10.iter-map-collect->push-loop")
+    def r11(m):
+        pv, s_ = m.group(1), m.group(2)
+        if re.search(r"\b" + re.escape(s_) + r"\s*:\s*&\[", sig):
+            hit("R11.for-over-slice-param->named-iter")
+            return f"for {pv} in it_{pv}: {s_}.iter() {{"
+        return m.group(0)
+    b = re.sub(r"\bfor\s+(\w+)\s+in\s+(\w+)\s*\{", r11, b)
+    return b
+
+
 def global_rules_sig(sig):
     s = strip_comments(sig)
     s = re.sub(r"(?m)^\s*#\[[^\]]*\]\s*$", "", s)          # R0 attributes
@@ -352,6 +386,33 @@ def stmt_start_before(bl, pos):
     return 0
 
 
+def tail_expr_start(body):
+    """position where the function's tail expression starts (after the last `;` / block statement at depth 0)"""
+    bl = blank(body)
+    end = len(bl.rstrip())
+    d = 0
+    seen_token = False
+    j = end - 1
+    while j >= 0:
+        c = bl[j]
+        if c in ")]}":
+            if c == "}" and d == 0 and seen_token:
+                # end of a preceding block statement, unless what follows is an `else`
+                if not re.match(r"\s*else\b", bl[j + 1:]):
+                    return j + 1
+            d += 1
+        elif c in "([{":
+            d -= 1
+            if d < 0:
+                return j + 1
+        elif c == ";" and d == 0:
+            return j + 1
+        if not c.isspace():
+            seen_token = True
+        j -= 1
+    return 0
+
+
 def nth_loop_brace(body, n):
     bl = blank(body)
     occ = [m for m in re.finditer(r"\b(loop|while|for)\b", bl)]
@@ -378,6 +439,7 @@ def apply_group(repo, d):
         sig = re.sub(r"\bfn\s+\w+", "fn " + d["as"], sig, count=1)
     sig = name_return(sig, d.get("ret"))
     body = global_rules_body(item["body"])
+    body = loop_rules(body, item["sig"])
     for (a, b, cnt) in d["rewrites"]:
         k = body.count(a) + sig.count(a)
         if k != cnt:
@@ -409,10 +471,9 @@ def apply_group(repo, d):
         elif kind == "loopbody":
             p = nth_loop_brace(body, int(arg)) + 1
             ins.append((p, "\n" + text + "\n"))
-        elif kind == "exit":
-            ins.append((len(body.rstrip()) if False else None, text))
-    tail = [t for (p, t) in ins if p is None]
-    ins = sorted([(p, t) for (p, t) in ins if p is not None], key=lambda x: -x[0])
+        elif kind == "tail":
+            ins.append((tail_expr_start(body), "\n" + text + "\n"))
+    ins = sorted(ins, key=lambda x: -x[0])
     for p, t in ins:
         body = body[:p] + t + body[p:]
     gen = d["item"]
@@ -465,6 +526,7 @@ def expand_template(repo, tmpl_text):
                 if k == "CONTRACT": cur = ("contract",)
                 elif k == "HINT":
                     if arg == "entry": cur = ("entry", None)
+                    elif arg == "tail": cur = ("tail", None)
                     elif arg.startswith("after="): cur = ("after", arg[6:])
                     elif arg.startswith("before="): cur = ("before", arg[7:])
                     elif arg.startswith("beforetext="): cur = ("beforetext", arg[11:])
